@@ -19,7 +19,9 @@ RULE = (
     "(table, column, index, constraint, schema); names_live: generated names (1-40 chars over an alphabet weighted to quote / escape / dot / "
     "percent / colon / bracket / space / unicode / leading digit) in every role at once, executed and reflected on SQLite; split: 1-4 generated "
     "components per preparer (sqlite, postgresql, mysql, mariadb, mssql, oracle, default) quoted, joined with '.', split back; reserved: core SQL "
-    "reserved words per dialect must be quoted. Non-trivial: name is a keyword, or contains a quote/escape/dot/percent/space/non-ASCII char, "
+    "reserved words per dialect must be quoted; qualified: histories of 2-6 renderings (format_table, CREATE TABLE, SELECT) of a table whose schema is one of 1-3 "
+    "generated names (half of them dotted), plain or forced to one identifier with quoted_name(quote=True), in one process (MSSQL memoizes the split of dotted schema "
+    "names): forced => exactly one identifier, every (schema, forced) renders the same whatever came before. Non-trivial: name is a keyword, or contains a quote/escape/dot/percent/space/non-ASCII char, "
     "or differs from its lower-case form; distinct = (sub, name tuple)"
 )
 ASSUMPTIONS = [
@@ -322,10 +324,78 @@ def check_reserved(case, ctx):
         raise Violation(f"C06/{dname}/reserved-word-not-quoted/{w}", f"{dname}: reserved word {w!r} emitted bare", observed=q, expected=f"quoted {w!r}")
 
 
+# ------------------------------------------------------------------------------------ schema-qualified names, histories in one process
+def check_qualified(case, ctx):
+    """a history of schema-qualified table renderings in ONE process (the MSSQL dialect memoizes how it splits a dotted schema name):
+    what is rendered for (schema, forced?) must not depend on what was rendered before, and a schema forced to be one identifier with
+    quoted_name(.., quote=True) must come out as exactly one identifier on every dialect"""
+    from sqlalchemy import Column, Integer, MetaData, Table, select
+    from sqlalchemy.schema import CreateTable
+    from sqlalchemy.sql.elements import quoted_name
+
+    dname, names, steps = case["d"], case["names"], case["steps"]
+    if dname not in _PREP:
+        _PREP[dname] = _preparer(dname)
+    d, prep = _PREP[dname]
+    if dname == "mssql":
+        from sqlalchemy.dialects.mssql import base as ms_base
+
+        ms_base._memoized_schema.clear()  # process-wide memo: every case starts from the same state
+
+    def render(name, forced):
+        sch = quoted_name(name, True) if forced else name
+        t = Table("t", MetaData(), Column("c", Integer), schema=sch)
+        ft = prep.format_table(t)
+        ddl = str(CreateTable(t).compile(dialect=d))
+        sel = str(select(t.c.c).compile(dialect=d))
+        head = ddl.strip().split(" (\n")[0]
+        if not head.startswith("CREATE TABLE "):
+            raise Violation(f"C06/{dname}/qualified/ddl-shape", f"unexpected DDL {ddl[:80]!r}")
+        frm = sel.split("\nFROM ", 1)[1].strip() if "\nFROM " in sel else None
+        return ft, head[len("CREATE TABLE "):], frm
+
+    seen = {}
+    dotted = forced_any = repeat = False
+    for i, (ni, forced) in enumerate(steps):
+        name = names[ni % len(names)]
+        forced = bool(forced)
+        ft, in_ddl, in_sel = render(name, forced)
+        where = f"{dname} step {i}: schema {name!r} {'forced with quoted_name(quote=True)' if forced else 'plain'} after {[(names[a % len(names)], bool(b)) for a, b in steps[:i]]}"
+        if not (ft == in_ddl == in_sel):
+            raise Violation(f"C06/{dname}/qualified/renderings-disagree", f"{where}: format_table {ft!r}, CREATE TABLE {in_ddl!r}, SELECT..FROM {in_sel!r}")
+        cmp_ = ft.replace("%%", "%") if prep._double_percents else ft
+        comps = list(prep.unformat_identifiers(cmp_))
+        dotted = dotted or "." in name
+        forced_any = forced_any or forced
+        if forced or dname != "mssql" or not any(ch in name for ch in ".[]"):
+            # (the MSSQL dialect reads a plain schema string as multipart syntax - dots split database.owner, brackets quote a part - as
+            # documented; such strings are judged by history independence only)
+            if comps != [name, "t"]:
+                raise Violation(f"C06/{dname}/qualified/schema-not-one-identifier", f"{where}: rendered {ft!r}, which reads as {comps!r}; expected {[name, 't']!r}", observed=comps, expected=[name, "t"])
+        key = (name, forced)
+        if key in seen:
+            repeat = True
+            if seen[key] != ft:
+                raise Violation(f"C06/{dname}/qualified/history-dependent", f"{where}: rendered {ft!r}, earlier in the same process {seen[key]!r}")
+        seen[key] = ft
+    ctx.note(case, dotted and forced_any and len({n for n, _ in seen}) < len(seen) or (dotted and repeat), classes=[dname, "qualified", "dotted" if dotted else "undotted", "forced" if forced_any else "plain-only"])
+
+
+@st.composite
+def _qualified_cases(draw):
+    dname = draw(st.sampled_from(["mssql", "mssql", "mssql", "postgresql", "mysql", "sqlite", "oracle"]))
+    part = st.text(alphabet="abAB_1 ", min_size=1, max_size=4).filter(lambda x: x.strip() == x and x)
+    name = st.one_of(part, st.tuples(part, part).map(".".join), st.tuples(part, part, part).map(".".join), _name_st(8))
+    names = draw(st.lists(name, min_size=1, max_size=3, unique=True))
+    steps = draw(st.lists(st.tuples(st.integers(0, 2), st.integers(0, 1)).map(list), min_size=2, max_size=6))
+    return {"d": dname, "names": names, "steps": steps}
+
+
 def subs(tier):
     return [
         Enumerated("kw_live", check_kw_live, cases=_kw_cases),
         Generated("names_live", check_names_live, strategy=_live_names(), quick=1200, thorough=60000),
         Generated("split", check_split, strategy=_split_cases(), quick=6000, thorough=400000),
         Enumerated("reserved", check_reserved, cases=_reserved_cases),
+        Generated("qualified", check_qualified, strategy=_qualified_cases(), quick=2500, thorough=120000),
     ]
